@@ -1,5 +1,6 @@
 import Tickit.Proof.RBSpec
 import Tickit.Proof.Utf8
+import Tickit.Props.C07
 /-
   The render buffer's private text-width code (`Tickit.RB.Utf8` in Model/RB.lean) is the C07 model
   (`Tickit.Utf8`, `Tickit.Width`): same tables, same width function, same decoder, same counting loop.
@@ -270,5 +271,140 @@ theorem countLoop_agree (s : List UInt8) (limit : Option StrPos) (hl : ∀ l, li
               cases limit with
               | none => rfl
               | some l => exact exceeds_some l (hl l rfl) here hhb n (Width.wcwidth cp)
+
+/-! ### whole calls, in the vocabulary of `Props/C07.lean` -/
+
+/-- A NUL at `e ≥ str` yields the first NUL from `str`. -/
+theorem exists_firstNul (mem : Tickit.Utf8.Mem) : ∀ (d str e : Nat), e - str ≤ d → str ≤ e → (mem e).toNat = 0 →
+    ∃ nul, Tickit.Utf8.FirstNul mem str nul ∧ nul ≤ e := by
+  intro d
+  induction d with
+  | zero =>
+    intro str e hd hle hz
+    have : e = str := by omega
+    subst this
+    exact ⟨e, ⟨Nat.le_refl _, hz, fun i a b => by omega⟩, Nat.le_refl _⟩
+  | succ d ih =>
+    intro str e hd hle hz
+    by_cases h0 : (mem str).toNat = 0
+    · exact ⟨str, ⟨Nat.le_refl _, h0, fun i a b => by omega⟩, hle⟩
+    · have hne : str ≠ e := by intro x; rw [x] at h0; exact h0 hz
+      obtain ⟨nul, ⟨a, b, c⟩, hn⟩ := ih (str + 1) e (by omega) (by omega) hz
+      refine ⟨nul, ⟨by omega, b, fun i x y => ?_⟩, hn⟩
+      by_cases hi : i = str
+      · rw [hi]; exact h0
+      · exact c i (by omega) y
+
+theorem memOf_zero (s : List UInt8) (i : Nat) (h : s.length ≤ i) : ((memOf s) i).toNat = 0 := by
+  unfold memOf
+  rw [List.getD_eq_getElem?_getD, List.getElem?_eq_none h]; rfl
+
+open Tickit.Utf8 (specRun) in
+open Tickit.Props.C07 (Scans graphemes) in
+/-- **A counting call of the render-buffer model, by C07's specification.**  For the two ways the render
+    buffer calls the counter — NUL-terminated from any committed position, or with the explicit string length
+    from the start — the characters can be scanned (`Scans`), and the call returns what `specRun` computes over
+    their graphemes: the position, and the error exactly if the specification reports one. -/
+theorem ncountmore_c07 (s : List UInt8) (len : Option Nat) (pos : StrPos) (limit : Option StrPos)
+    (hp : 0 ≤ pos.bytes) (hlen : len = none ∨ (len = some s.length ∧ pos.bytes = 0))
+    (hl : ∀ l, limit = some l → -1 ≤ l.bytes) :
+    ∃ cs t, Scans (memOf s) (s.length + 1) len (toPos pos) cs t ∧
+      (ncountmore s len pos limit).pos = ofPos (specRun (limit.map toLimit) (graphemes cs) t (toPos pos)).pos ∧
+      (ncountmore s len pos limit).status =
+        (if (specRun (limit.map toLimit) (graphemes cs) t (toPos pos)).err then .err else .ok) := by
+  -- the input can be scanned with the fuel the model uses
+  have hscan : ∃ cs t, Scans (memOf s) (s.length + 1) len (toPos pos) cs t := by
+    unfold Scans
+    rcases hlen with h | ⟨h, h0⟩
+    · subst h
+      show ∃ cs t, Tickit.Utf8.scan (memOf s) (s.length + 1) pos.bytes.toNat none = some (cs, t)
+      obtain ⟨nul, hn, hle⟩ := exists_firstNul (memOf s) (max pos.bytes.toNat s.length - pos.bytes.toNat) pos.bytes.toNat
+        (max pos.bytes.toNat s.length) (Nat.le_refl _) (Nat.le_max_left _ _) (memOf_zero s _ (Nat.le_max_right _ _))
+      obtain ⟨cs, t, h⟩ := Props.C07.scan_terminates_nul (memOf s) nul (nul - pos.bytes.toNat) pos.bytes.toNat hn (Nat.le_refl _)
+      refine ⟨cs, t, Tickit.Utf8.scan_mono_le _ _ _ _ _ _ ?_ h⟩
+      have := hn.1
+      omega
+    · subst h
+      have e : (toPos pos).bytes = 0 := by show pos.bytes.toNat = 0; omega
+      rw [e]
+      exact Props.C07.scan_terminates_len (memOf s) s.length 0
+  obtain ⟨cs, t, hs⟩ := hscan
+  refine ⟨cs, t, hs, ?_⟩
+  obtain ⟨hi, hc⟩ := Props.C07.count_spec (memOf s) (s.length + 1) len (toPos pos) (limit.map toLimit) cs t hs
+  have hA := countLoop_agree s limit hl pos.bytes.toNat (s.length + 1) pos.bytes.toNat (len.map (· - pos.bytes.toNat)) pos pos 0
+    hp (by omega) (Int.le_refl _)
+  have hlen' : Tickit.Utf8.lenSub len (toPos pos).bytes = len.map (· - pos.bytes.toNat) := by
+    rcases hlen with h | ⟨h, h0⟩
+    · subst h; rfl
+    · subst h
+      have e : pos.bytes.toNat = 0 := by omega
+      show Tickit.Utf8.lenSub (some s.length) pos.bytes.toNat = _
+      rw [e]; simp [Tickit.Utf8.lenSub]
+  have hc' : Tickit.Utf8.loop (memOf s) (limit.map toLimit) pos.bytes.toNat (s.length + 1) pos.bytes.toNat
+      (len.map (· - pos.bytes.toNat)) (toPos pos) (toPos pos) 0 =
+      .ret ((specRun (limit.map toLimit) (graphemes cs) t (toPos pos)).ret (toPos pos).bytes)
+        (specRun (limit.map toLimit) (graphemes cs) t (toPos pos)).pos hi := by
+    rw [← hlen']; exact hc
+  rw [hc'] at hA
+  unfold Agree at hA
+  simp only at hA
+  refine ⟨hA.1, ?_⟩
+  unfold Tickit.Utf8.Res.ret at hA
+  by_cases he : (specRun (limit.map toLimit) (graphemes cs) t (toPos pos)).err = true
+  · rw [if_pos he] at hA ⊢
+    rcases hA.2 with h | h
+    · exact h.2
+    · exact absurd rfl h.2.1
+  · rw [if_neg he] at hA ⊢
+    rcases hA.2 with h | h
+    · exfalso
+      have := h.1
+      have hb := Tickit.Utf8.specRun_bytes_ge (limit.map toLimit) t (graphemes cs) (toPos pos)
+      omega
+    · exact h.2.2
+
+theorem allFit_none : ∀ (gs : List (List Tickit.Utf8.Ch)) (here : Tickit.Utf8.Pos), Tickit.Utf8.AllFit none here gs := by
+  intro gs
+  induction gs with
+  | nil => intro here; trivial
+  | cons g gs ih => intro here; exact ⟨trivial, ih _⟩
+
+theorem specRun_none_eof : ∀ (gs : List (List Tickit.Utf8.Ch)) (here : Tickit.Utf8.Pos),
+    Tickit.Utf8.specRun none gs .eof here = ⟨false, Tickit.Utf8.sumPos here gs.flatten⟩ := by
+  intro gs
+  induction gs with
+  | nil => intro here; rfl
+  | cons g gs ih =>
+    intro here
+    unfold Tickit.Utf8.specRun
+    rw [if_pos (by trivial : Tickit.Utf8.Within none _), if_neg (by simp), ih, List.flatten_cons, Tickit.Utf8.sumPos_append]
+
+open Tickit.Props.C07 (Scans graphemes) in
+/-- **The columns of a text, in C07's terms**: the string handed to `put_string` can be scanned into
+    characters `cs` (each with its C07 width `c.w = wcwidth c.cp`, see `Props.C07.scans_sound`); the text is
+    accepted exactly if the scan ends at the end of the string (no control character, no truncated or NUL-cut
+    sequence), and then it occupies the sum of the widths. -/
+theorem stringColumns_c07 (s : List UInt8) :
+    ∃ cs t, Scans (memOf s) (s.length + 1) (some s.length) Tickit.Utf8.Pos.zero cs t ∧
+      stringColumns s = (if t = .eof then some ((cs.map (·.w)).sum) else none) := by
+  obtain ⟨cs, t, hs, hp, hst⟩ := ncountmore_c07 s (some s.length) {} none (Int.le_refl _) (Or.inr ⟨rfl, rfl⟩) (fun l h => by cases h)
+  refine ⟨cs, t, hs, ?_⟩
+  unfold stringColumns
+  simp only [Option.map_none] at hp hst
+  have hz : toPos {} = Tickit.Utf8.Pos.zero := rfl
+  rw [hz] at hp hst
+  cases t with
+  | eof =>
+    simp only [specRun_none_eof, Bool.false_eq_true, if_false] at hp hst
+    simp only [hst, hp, if_true]
+    simp only [ofPos]
+    unfold graphemes
+    rw [Tickit.Utf8.clusters_flatten, Tickit.Utf8.sumPos_columns]
+    simp [Tickit.Utf8.Pos.zero]
+  | err =>
+    have he : (Tickit.Utf8.specRun none (graphemes cs) .err Tickit.Utf8.Pos.zero).err = true :=
+      (Tickit.Utf8.specRun_err_iff none .err _ _).2 ⟨rfl, allFit_none _ _⟩
+    simp only [he, if_true] at hst
+    simp [hst]
 
 end Tickit.RB.Utf8
